@@ -269,7 +269,10 @@ func TestVerifC09Rot(t *testing.T) {
 			case "inc":
 				c.Inc()
 			case "upload":
-				if err := upload.Run(upload.RunConfig{TelemetryDir: dir, StartTime: now}); err != nil {
+				// the start instant is the same whatever time zone it is expressed in
+				zones := []*time.Location{time.UTC, time.FixedZone("west", -8*3600), time.FixedZone("east", 14*3600), time.FixedZone("half", 5*3600+1800)}
+				start := now.In(zones[(bh.ID+i)%len(zones)])
+				if err := upload.Run(upload.RunConfig{TelemetryDir: dir, StartTime: start}); err != nil {
 					rt.Out(rt.M{"kind": "mismatch", "what": "upload.Run error", "id": bh.ID, "step": i, "err": err.Error()})
 					good = false
 				}
